@@ -111,6 +111,15 @@ func Run(ctx *vrun.Ctx, prop string) error {
 			}
 		}
 	}
+	if prop == "C04" {
+		n := 3
+		if ctx.Thorough {
+			n = 4
+		}
+		if err := RunChainStore(ctx, n); err != nil {
+			return err
+		}
+	}
 	if os.Getenv("VERIF_ONLY_UTXO") != "" {
 		return nil
 	}
